@@ -135,13 +135,62 @@ macro_rules! neutral_long {
         }
     };
 }
+macro_rules! neutral_parity {
+    ($name:ident, $tc:expr, $f:expr) => {
+        #[cfg_attr(kani, kani::proof)]
+        #[cfg_attr(kani, kani::unwind(33))]
+        #[cfg_attr(kani, kani::stub(chrono::Utc::now, crate::verif::rt::stub_now))]
+        #[cfg_attr(kani, kani::stub(crate::decoder::get_downlink_format, super::rows::stub_get_df))]
+        #[cfg_attr(kani, kani::stub(crate::decoder::adsb::icao::get_icao, super::rows::stub_get_icao))]
+        #[cfg_attr(kani, kani::stub(crate::decoder::utils::get_message_type, super::rows::stub_get_tc))]
+        #[cfg_attr(kani, kani::stub(crate::decoder::adsb::position::cpr_location, super::rows::stub_cpr_location))]
+        #[cfg_attr(kani, kani::stub(crate::decoder::adsb::position::cpr, super::rows::stub_cpr))]
+        #[cfg_attr(kani, kani::stub(crate::decoder::adsb::ais::ais, super::rows::stub_ais))]
+        #[cfg_attr(kani, kani::stub(f64::atan2, super::c09::stub_atan2))]
+        #[cfg_attr(kani, kani::stub(f64::sqrt, super::c09::stub_sqrt))]
+        #[cfg_attr(kani, kani::stub(f64::powi, super::c09::stub_powi))]
+        #[cfg_attr(verif_replay, test)]
+        fn $name() {
+            let m = frame28();
+            pin_df(&m, 17);
+            pin_tc(&m, $tc);
+            pin_f(&m, $f);
+            go(&m);
+            fn go(m: &[u32; 28]) {
+                let m = *m;
+                assume(valid_long(&m, $tc));
+                let relaxed = any_bool();
+                draw_libm();
+                let some = any_bool();
+                let (la, lo) = (any_f64(), any_f64());
+                assume(la >= -90.0 && la <= 90.0 && lo >= -180.0 && lo <= 180.0);
+                unsafe { CPRLOC_RET = if some { Some((la, lo)) } else { None } };
+                let mut a = any_row();
+                let Some((df, icao)) = accepted(&m) else { return };
+                a.icao = icao;
+                let mut b = clone_row(&a);
+                apply(&mut a, &m, df, false, relaxed);
+                apply(&mut b, &m, df, true, relaxed);
+                vcover!(relaxed, "-R on");
+                vcover!(!relaxed, "-R off");
+                listed_equal(&a, &b);
+            }
+        }
+    };
+}
 // @harness name=c19_neutral_tc4 props=C19 tier=quick cap=1200
 // DF17 TC4 identification (callsign construction stubbed by a marker on both sides)
 neutral_long!(c19_neutral_tc4, 4);
-// @harness name=c19_neutral_tc11 props=C19 tier=quick cap=1500
-// DF17 TC11 airborne position with a valid altitude (position decode stubbed identically on both sides)
+// @harness name=c19_neutral_tc11 props=C19 tier=thorough cap=3600
+// DF17 TC11 airborne position with a valid altitude, both parities in one query (position decode stubbed identically on both sides)
 neutral_long!(c19_neutral_tc11, 11);
-// @harness name=c19_neutral_tc19 props=C19 tier=quick cap=1500 needs=kfmod
+// @harness name=c19_neutral_tc11_even props=C19 tier=quick cap=1500
+// DF17 TC11 airborne position with a valid altitude, EVEN frames
+neutral_parity!(c19_neutral_tc11_even, 11, 0);
+// @harness name=c19_neutral_tc13_odd props=C19 tier=thorough cap=1500
+// DF17 TC13 airborne position, ODD frames
+neutral_parity!(c19_neutral_tc13_odd, 13, 1);
+// @harness name=c19_neutral_tc19 props=C19 tier=thorough cap=3600 needs=kfmod
 // DF17 TC19 velocity, all fields carrying information (libm as uninterpreted functions)
 neutral_long!(c19_neutral_tc19, 19);
 // @harness name=c19_neutral_tc6 props=C19 tier=thorough cap=1500
